@@ -12,6 +12,16 @@ func runC01(c *Ctx) {
 	for _, cs := range cases {
 		r.Case(cs.Src+"|"+cs.Mode.String(), len(cs.Src) > 6)
 	}
+	// exhaustive small trees: every node kind / operator in every child slot
+	stride := 9
+	if c.Thorough() {
+		stride = 2
+	}
+	enum := EnumCases(c, stride)
+	for _, cs := range enum {
+		r.Case(cs.B.TreeSx, true)
+	}
+	ok = append(ok, CompileCorrespondenceBuilt(c, enum)...)
 	res := VMCorrespondence(c, ok, 1000)
 	// tie of the Spec as the theorems use it (mirroring the code's known deviations)
 	SpecCorrespondence(c, res, 1000, asIs.RangeSigned, true, func(vr *VMResult, spec, real string) {
